@@ -97,7 +97,8 @@ def main():
         src = os.path.join(srcroot, m)
         if not os.path.exists(os.path.join(src, "patch.diff")):
             continue
-        sid = f"{prop}_{m}"
+        # SEED_TAG=n stores out/m1 as <prop>_n1 (second wave of independent changes)
+        sid = f"{prop}_{os.environ.get('SEED_TAG', 'm')}{m[1:]}" if m.startswith("m") else f"{prop}_{m}"
         dst = os.path.join(V, "seeded", sid)
         os.makedirs(dst, exist_ok=True)
         print("==", sid, flush=True)
